@@ -405,6 +405,7 @@ class TreeBigIterSpec(TreeSpec):
     """C02 at scale (oracle only: the ideal map + abstract re-seek iterator are evaluated in Python): trees of three and
     four levels, dozens of iterators parked all over the key range, drains that force merges of INNER nodes, and after
     every structural change the key each iterator is parked on is overwritten (or deleted) before its next Next."""
+    single_round = True     # the case list does not depend on the scale factor
     checkers = {}
     informational = set()
 
